@@ -1,4 +1,5 @@
 import Carquet.Proofs.Writer
+import Carquet.Proofs.WriterLayout
 import Carquet.Impl.FileReal
 /-
 C05 (envelope part) — every file the writer reports complete has the Parquet envelope.
@@ -6,7 +7,7 @@ Statements only; lemmas in Proofs/Writer.lean.  Generic in the byte-level compon
 (`Deps`), hence in particular for the real ones (`Impl.FileReal.deps`).
 -/
 namespace Carquet.Properties.C05
-open Carquet.Impl.Writer Carquet.Proofs.Writer
+open Carquet.Impl.Writer Carquet.Proofs.Writer Carquet.Proofs.WriterLayout
 
 /-- For every schema, options and write history (any batches, any row-group boundaries, also
 calls that failed in between): if `carquet_writer_close` returns OK, the stream received
@@ -23,6 +24,51 @@ theorem C05_envelope (D : Deps) (cols : List Col) (codec pageSize : Nat) (create
   simp only at h ⊢
   rw [h]
   simp [List.flatten_cons, List.flatten_append, List.append_assoc]
+
+/-- For every schema, options and history: if close returns OK, the file is
+`PAR1 ++ data ++ footer ++ len ++ PAR1` where the footer is the serialisation of metadata `md`
+whose row groups and column chunks describe consecutive, gap-free, non-overlapping byte ranges
+starting at offset 4 and ending exactly where the footer starts (`GroupsAt md.rowGroups 4`,
+`|data| = Σ total_compressed_size`), each row group's `total_compressed_size` and
+`total_byte_size` being the sum of its chunks' sizes and each chunk's `file_offset` (=
+`data_page_offset`) the position of its first byte. -/
+theorem C05_chunks_tile (D : Deps) (cols : List Col) (codec pageSize : Nat) (createdBy : String)
+    (ops : List Op)
+    (hok : (fileOf D cols codec pageSize createdBy ops).2.getLast? = some .ok) :
+    ∃ (data : Bytes) (md : FooterData),
+      (fileOf D cols codec pageSize createdBy ops).1 =
+        magic ++ data ++ D.footer md ++ le32 (D.footer md).length ++ magic ∧
+      md.cols = cols ∧ md.createdBy = createdBy ∧
+      data.length = groupsSize md.rowGroups ∧ GroupsAt md.rowGroups 4 := by
+  unfold fileOf writesOf at hok ⊢
+  have hinit := allInv_init cols codec pageSize createdBy
+  obtain ⟨r1, r2⟩ := run_eq_close D ops { cols := cols, codec := codec, pageSize := pageSize, createdBy := createdBy } []
+  simp only at hok ⊢
+  rw [r2] at hok
+  have hok' := Option.some.inj hok
+  have hA := allInv_stateAfter D ops _ hinit
+  obtain ⟨c1, c2, c3⟩ := close_layout D _ hA hok'
+  rw [r1, c1]
+  -- the closing state's stream starts with the magic
+  have hE := allInv_ensureHeader _ hA
+  have hF := allInv_flushRowGroup D _ hE.1 hE.2
+  have hh : (closing D (stateAfter D { cols := cols, codec := codec, pageSize := pageSize, createdBy := createdBy } ops)).headerWritten = true := by
+    unfold closing; rw [flushRowGroup_header]; exact hE.2
+  obtain ⟨rest, hrest⟩ := hF.1.2 hh
+  have hclosing : ∀ w : W, (closing D w).cols = w.cols ∧ (closing D w).createdBy = w.createdBy := by
+    intro w
+    have := step_cols D w .newRowGroup
+    simpa [step, closing] using this
+  have hfold := stateAfter_cols D
+  obtain ⟨k1, k2⟩ := hclosing (stateAfter D { cols := cols, codec := codec, pageSize := pageSize, createdBy := createdBy } ops)
+  obtain ⟨f1, f2⟩ := hfold ops { cols := cols, codec := codec, pageSize := pageSize, createdBy := createdBy }
+  have hrest : (closing D (stateAfter D { cols := cols, codec := codec, pageSize := pageSize, createdBy := createdBy } ops)).out = magic :: rest := hrest
+  generalize hW : closing D (stateAfter D { cols := cols, codec := codec, pageSize := pageSize, createdBy := createdBy } ops) = W' at *
+  refine ⟨rest.flatten, ⟨W'.cols, W'.createdBy, W'.totalRows, W'.rowGroups⟩, ?_, ?_, ?_, ?_, c3⟩
+  · rw [hrest]; simp [footerOf, List.flatten_cons, List.append_assoc]
+  · simpa using k1.trans f1
+  · simpa using k2.trans f2
+  · have := c2; rw [hrest] at this; simp [List.flatten_cons, magic] at this; simp; omega
 
 /-- the same for the real components -/
 theorem C05_envelope_real (cols : List Col) (codec pageSize : Nat) (ops : List Op)
